@@ -82,6 +82,17 @@ func (cm *cmafIngesterMgr) Close() {
 	}
 }
 
+// newInternalRequest builds the request that the configuration is read from. httptest.NewRequest panics on a
+// target that is no valid request URI (empty, bad escape, spaces); the target comes from an API body.
+func newInternalRequest(target string) (r *http.Request, err error) {
+	defer func() {
+		if p := recover(); p != nil {
+			r, err = nil, fmt.Errorf("livesimURL %q is not a valid URL path: %v", target, p)
+		}
+	}()
+	return httptest.NewRequest("GET", target, nil), nil
+}
+
 func (cm *cmafIngesterMgr) NewCmafIngester(req CmafIngesterSetup) (nr uint64, err error) {
 	if cm.state != ingesterStateRunning {
 		return 0, fmt.Errorf("CMAF ingester manager not running")
@@ -96,7 +107,10 @@ func (cm *cmafIngesterMgr) NewCmafIngester(req CmafIngesterSetup) (nr uint64, er
 
 	log := slog.Default().With(slog.Uint64("ingester", nr))
 
-	mpdReq := httptest.NewRequest("GET", req.URL, nil)
+	mpdReq, err := newInternalRequest(req.URL)
+	if err != nil {
+		return 0, err
+	}
 	if req.TestNowMS != nil {
 		mpdReq.URL.RawQuery = fmt.Sprintf("nowMS=%d", *req.TestNowMS)
 	}
